@@ -184,7 +184,12 @@ class CapturedPath:
 
   def _find_edge_from_path_to_segment(self, path, oriented_segment):
     edges = []
+    seen = set()
     for edge in oriented_segment.line.edges:
+      # (an edge from a segment to itself is listed once for each side)
+      if id(edge) in seen:
+        continue
+      seen.add(id(edge))
       if (edge.sid1 == oriented_segment and edge.sid2 == path[-1]) or \
          (edge.sid1 == path[-1] and edge.sid2 == oriented_segment):
         edges.append(gfapy.OrientedLine(edge, "+"))
